@@ -268,7 +268,17 @@ pub(crate) fn render_vardct<S: Sample>(
             return Ok(());
         };
 
-        let result = std::sync::RwLock::new(Result::Ok(()));
+        // Keep the error of the first group in bitstream order, so that the outcome doesn't depend on
+        // which task happens to fail last.
+        let result = std::sync::RwLock::new(None::<((u32, u32), crate::Error)>);
+        let set_error = |result: &std::sync::RwLock<Option<((u32, u32), crate::Error)>>,
+                         key: (u32, u32),
+                         e: crate::Error| {
+            let mut result = result.write().unwrap();
+            if result.as_ref().is_none_or(|(prev_key, _)| key < *prev_key) {
+                *result = Some((key, e));
+            }
+        };
 
         for (pass_idx, pass_image) in pass_group_image.into_iter().enumerate() {
             let pass_idx = pass_idx as u32;
@@ -290,7 +300,7 @@ pub(crate) fn render_vardct<S: Sample>(
                     let bitstream = match frame.pass_group_bitstream(pass_idx, group_idx) {
                         Some(Ok(bitstream)) => bitstream,
                         Some(Err(e)) => {
-                            *result.write().unwrap() = Err(e.into());
+                            set_error(&result, (pass_idx, group_idx), e.into());
                             continue;
                         }
                         None => continue,
@@ -303,6 +313,7 @@ pub(crate) fn render_vardct<S: Sample>(
                         .map(|(_, modular)| modular);
 
                     let result = &result;
+                    let set_error = &set_error;
                     scope.spawn(move |_| {
                         let vardct = Some(PassGroupParamsVardct {
                             lf_vardct: lf_global_vardct,
@@ -325,15 +336,18 @@ pub(crate) fn render_vardct<S: Sample>(
                                 pool,
                             },
                         );
-                        if !allow_partial && r.is_err() {
-                            *result.write().unwrap() = r.map_err(From::from);
+                        if !allow_partial && let Err(e) = r {
+                            set_error(result, (pass_idx, group_idx), e.into());
                         }
                     });
                 }
             });
         }
 
-        result.into_inner().unwrap()
+        match result.into_inner().unwrap() {
+            Some((_, e)) => Err(e),
+            None => Ok(()),
+        }
     })?;
 
     tracing::trace_span!("Dequant and transform").in_scope(|| {
